@@ -65,9 +65,9 @@ def c02(tier):
     rnd = random.Random(202 + run.seed)
     big = []
     for k in kinds:
-        for n in ((6, 7, 8, 16, 33) if tier == "quick" else (5, 6, 7, 8, 13, 16, 33, 64, 100)):
+        for n in ((6, 7, 8, 16, 33, 100) if tier == "quick" else (5, 6, 7, 8, 13, 16, 33, 64, 100, 257)):
             big.append({"cfg": {"k": k, "n": n}, "unit": 1, "mode": "window", "eps": [1, 1000000000], "float": "f64",
-                        "xs": shapes(rnd, n, -40, 40, 300 if tier == "quick" else 3000), "k": 1})
+                        "xs": shapes(rnd, n, -40, 40, max(3 * n, 300) if tier == "quick" else 3000), "k": 1})
     run.submit(p3_stream_job, "w-big", "C02", big)
     # decimal unit: same definitions on inputs k/10 (not exactly representable): the statement allows rounding noise
     # proportional to the magnitude; sqrt-type outputs amplify 1e-16 to 1e-8, hence 1e-6 here (C16's figure)
@@ -97,7 +97,7 @@ def c05(tier):
     rnd = random.Random(505 + run.seed)
     big = [{"cfg": {"k": k, "n": n}, "unit": 1, "mode": "window", "eps": [1, 1000000000], "float": "f64",
             "xs": shapes(rnd, n, -40, 40, 300 if tier == "quick" else 3000), "k": 1}
-           for k in kinds for n in ((7, 14, 33) if tier == "quick" else (7, 14, 16, 33, 64))]
+           for k in kinds for n in ((7, 14, 33, 100) if tier == "quick" else (7, 14, 16, 33, 64, 100, 257))]
     run.submit(p3_stream_job, "rsi-big", "C05", big)
     return run.finish(RULE_DEF + "; plus recorded streams at larger N validated on the ghost window (P3)")
 
@@ -121,7 +121,7 @@ def c06(tier):
     rnd = random.Random(606 + run.seed)
     big = [{"cfg": {"k": k, "n": n}, "unit": 1, "mode": "window", "eps": [1, 1000000000], "float": "f64",
             "xs": shapes(rnd, n, -40 if k != "CenterOfGravity" else 1, 40, 250 if tier == "quick" else 2000), "k": 1}
-           for k in kinds for n in ((9, 16, 20) if tier == "quick" else (9, 16, 20, 48))]
+           for k in kinds for n in ((9, 16, 20, 48) if tier == "quick" else (9, 16, 20, 48, 100))]
     run.submit(p3_stream_job, "trend-big", "C06", big)
     return run.finish(RULE_DEF + "; plus recorded streams at larger N validated on the ghost window (P3)")
 
@@ -536,7 +536,8 @@ def c15(tier):
     rnd = random.Random(1515 + run.seed)
     for prof in ("dev", "release"):
         st = []
-        for n in ([5, 6, 7, 8, 10, 12, 13, 16, 20, 24, 31, 32, 33, 40, 41, 48, 63, 64] if tier == "quick" else list(range(5, 65))):
+        for n in ([5, 6, 7, 8, 10, 12, 13, 16, 20, 24, 31, 32, 33, 40, 41, 48, 63, 64, 100, 127, 128, 129, 200, 256, 257] if tier == "quick"
+                  else list(range(5, 65)) + [100, 127, 128, 129, 200, 255, 256, 257, 500]):
             xs = shapes(rnd, n, -30, 30, 2 * n + 12)
             for cfg in catalogue(n, m=(n % 3) + 1):
                 if "n" in cfg or cfg["k"] in ("Add", "Subtract", "Multiply"):
